@@ -514,7 +514,7 @@ pub fn run(ctx: &Ctx) -> PropResult {
     let mut meta = PropMeta::default();
     meta.exhaustive = true;
     meta.rule = format!(
-        "(1) EXHAUSTIVE: {} (symbol, width) runs x every input string of length ≤ {} over the alphabet {{0 1 9 - + a Z : é ' space .}} x 3 parse functions; (2) EXHAUSTIVE: every pattern of length ≤ 5 over {{' y T é space}} x every input of length ≤ {} over {{2 - T é ' space}} for parse (3 types) and the patterns for format on 7 values (BC, leap day, both range ends with offsets); (3) C12 round-trip material with delete/insert/replace/truncate mutations (multi-byte, NUL, quotes, signs, digits) of the input, the pattern, or both; (4) RFC 3339 / FromStr / cron strings under the same mutations, and range-end local times with offsets that push the UTC instant out of range; (4b) EXHAUSTIVE: a valid RFC 3339 date-time prefix followed by every string of length ≤ 5 (thorough 6) over {{+ - 0 5 : Z é 日 .}} as fraction/offset part; (4c) cron fields holding tokens of up to 48 characters of mixed byte widths; (5) 10 000-character inputs and patterns, and runs of 255 … 300 000 repetitions of each single symbol (the run length is used as a padding width). Oracle: outcome class — Ok (then every getter/format of the value must also return and the value be in range), Err, or panic; only a panic (any class, both builds) or an invalid Ok value is a violation. Non-trivial = every mutated/enumerated case; exhaustive cases distinct by construction (counted), others by hash. Pile-ups: several fields for the same component in one pattern (every width of n; several hour, year, day, minute/second, zone, period symbols) with every digit at its maximum, for parse on all three types and for format.",
+        "(1) EXHAUSTIVE: {} (symbol, width) runs x every input string of length ≤ {} over the alphabet {{0 1 9 - + a Z : é ' space .}} x 3 parse functions; (2) EXHAUSTIVE: every pattern of length ≤ 5 over {{' y T é space}} x every input of length ≤ {} over {{2 - T é ' space}} for parse (3 types) and the patterns for format on 7 values (BC, leap day, both range ends with offsets); (3) C12 round-trip material with delete/insert/replace/truncate mutations (multi-byte, NUL, quotes, signs, digits) of the input, the pattern, or both; (4) RFC 3339 / FromStr / cron strings under the same mutations, and range-end local times with offsets that push the UTC instant out of range; (4b) EXHAUSTIVE: a valid RFC 3339 date-time prefix followed by every string of length ≤ 5 (thorough 6) over {{+ - 0 5 : Z é 日 .}} as fraction/offset part; (4c) cron fields holding tokens of up to 48 characters of mixed byte widths; (5) 10 000-character inputs and patterns, and runs of 255 … 300 000 repetitions of each single symbol (the run length is used as a padding width). Oracle: outcome class — Ok (then every getter/format of the value must also return and the value be in range), Err, or panic; only a panic (any class, both builds) or an invalid Ok value is a violation. Non-trivial = every mutated/enumerated case; exhaustive cases distinct by construction (counted), others by hash. Pile-ups: several fields for the same component in one pattern (every width of n; several hour, year, day, minute/second, zone, period symbols) with every digit at its maximum, for parse on all three types and for format. EVERY deletion of 1..=7 and duplication of 1..=3 consecutive characters of 14 default-form texts (RFC 3339 with and without fraction/offset, yyyy-MM-dd incl. negative and 5-digit years, HH:mm:ss) through parse_rfc3339 and the three FromStr impls.",
         combos.len(), max_len, in_len
     );
     meta.required_bins = vec!["range-end-with-offset", "long-input", "very-long-symbol-run", "cron-long-token"];
